@@ -39,6 +39,16 @@ class ListTheory:
         l = z3.Const('l!q', self.sort)
         x = z3.Const('x!q', elem_sort)
         i = z3.Int('i!q')
+        self.lsum = None
+        l2 = z3.Const('l2!q', self.sort)
+        self.ext_axiom = (f'lext_{tag}', z3.ForAll([l, l2], z3.Implies(
+            z3.And(self.llen(l) == self.llen(l2),
+                   z3.ForAll([i], z3.Implies(z3.And(0 <= i, i < self.llen(l)), self.lat(l, i) == self.lat(l2, i)))),
+            l == l2), patterns=[z3.MultiPattern(self.llen(l), self.llen(l2))]))
+        if str(elem_sort) in ('Real', 'Int'):
+            # lsum(l) = at(l,0) + ... + at(l,len-1), through the prefix sums lpre(l,i)
+            self.lpre = z3.Function(f'lpre_{tag}', self.sort, z3.IntSort(), elem_sort)
+            self.lsum = z3.Function(f'lsum_{tag}', self.sort, elem_sort)
         self.axioms = [
             (f'llen_nonneg_{tag}', z3.ForAll([l], self.llen(l) >= 0, patterns=[self.llen(l)])),
             (f'lempty_{tag}', self.llen(self.lempty) == 0),
@@ -47,7 +57,16 @@ class ListTheory:
             (f'lapp_at_{tag}', z3.ForAll([l, x, i], self.lat(self.lapp(l, x), i) ==
                                          z3.If(i == self.llen(l), x, self.lat(l, i)),
                                          patterns=[self.lat(self.lapp(l, x), i)])),
+            self.ext_axiom,
         ]
+        if self.lsum is not None:
+            self.axioms += [
+                (f'lsum_def_{tag}', z3.ForAll([l], self.lsum(l) == self.lpre(l, self.llen(l)), patterns=[self.lsum(l)])),
+                (f'lpre_0_{tag}', z3.ForAll([l], self.lpre(l, 0) == 0, patterns=[self.lpre(l, 0)])),
+                (f'lpre_step_{tag}', z3.ForAll([l, i], z3.Implies(z3.And(0 <= i, i < self.llen(l)),
+                                                              self.lpre(l, i + 1) == self.lpre(l, i) + self.lat(l, i)),
+                                               patterns=[self.lpre(l, i + 1)])),
+            ]
 
 
 def sort_tag(s):
